@@ -2611,6 +2611,30 @@ impl<'a, R: FileManager> FrontendCtx<'a, R> {
         bff_file_name: &BffFileName,
         anchor: &Anchor,
     ) -> Res<Runtype> {
+        // a module that exports its own namespace (export * as self from "./a", or two modules
+        // exporting each other's) would be walked without end
+        let whole_file = ModuleItemAddress {
+            file: bff_file_name.clone(),
+            name: "*".to_string(),
+            visibility: Visibility::Export,
+        };
+        if self.typing_values.contains(&whole_file) {
+            return self.error(
+                anchor,
+                DiagnosticInfoMessage::CannotNotResolveValue(whole_file),
+            );
+        }
+        self.typing_values.push(whole_file);
+        let res = self.extract_whole_file_as_value_step(bff_file_name, anchor);
+        self.typing_values.pop();
+        res
+    }
+
+    fn extract_whole_file_as_value_step(
+        &mut self,
+        bff_file_name: &BffFileName,
+        anchor: &Anchor,
+    ) -> Res<Runtype> {
         let mut vs = vec![];
         let module = self.get_or_fetch_file(bff_file_name, anchor)?;
         // the export tables are hash maps: visit them by name, so that the first diagnostic (and
